@@ -204,3 +204,11 @@ def test_d35_num_bits_as_numpy_fixed_width_integer(ty):
     want = np.asarray(sv.RealQuantizer(target_fwhm=32, num_bits=8).quantize(x))
     got = np.asarray(sv.RealQuantizer(target_fwhm=32, num_bits=ty(8)).quantize(x))
     assert np.array_equal(got, want)
+
+
+def test_d36_array_request_size_as_numpy_fixed_width_integer():
+    mk = lambda: sv.MultiAntennaArray(num_antennas=2, sample_rate=1024.0, num_pols=1, delays=[0, 100], seed=1)
+    a, b = mk(), mk()
+    for z in (a, b):
+        z.bg_x.add_noise(0, 1)
+    assert np.array_equal(np.asarray(a.get_samples(np.uint8(200))), np.asarray(b.get_samples(200)))
